@@ -22,6 +22,19 @@ template <class P> static void put(P& a, const std::vector<std::string>& v, size
 }
 template <class P> static void show(std::ostringstream& os, P const& a) { for (size_t cm = 0; cm < P::nmoduli; cm++) for (size_t i = 0; i < P::degree; i++) os << " " << (ull)a(cm, i); }
 
+// a second object made from the target before it is read into (for poly_p: a handle SHARING the target's storage): reading into the target must
+// leave it as it was ("plain and shared-handle classes")
+template <class P> struct Other {
+  P* keep; std::vector<ull> before;
+  Other(P& target, bool fill) {
+    if (fill) for (size_t cm = 0; cm < P::nmoduli; cm++) for (size_t i = 0; i < P::degree; i++) target(cm, i) = (typename P::value_type)(0x3C3C3C3C3C3C3C3CULL + 7 * (cm * P::degree + i));
+    keep = alloc_aligned<P, 32>(1); *keep = static_cast<P const&>(target); P const& k = *keep;
+    for (size_t cm = 0; cm < P::nmoduli; cm++) for (size_t i = 0; i < P::degree; i++) before.push_back((ull)k(cm, i));
+  }
+  const char* verdict() const { P const& k = *keep; size_t j = 0; for (size_t cm = 0; cm < P::nmoduli; cm++) for (size_t i = 0; i < P::degree; i++) if ((ull)k(cm, i) != before[j++]) return " OTHER-OBJECT-CHANGED"; return ""; }
+  ~Other() { free_aligned(1, keep); }
+};
+
 template <class P> static void run(const std::string& op, const std::vector<std::string>& v, std::ostringstream& os) {
   typedef typename P::value_type T;
   const size_t N = P::degree * P::nmoduli;
@@ -33,23 +46,25 @@ template <class P> static void run(const std::string& op, const std::vector<std:
   else if (op == "text") { put(a, v, 0); std::ostringstream ss; ss << a; os << ss.str(); }
   else if (op == "deser") {      // v[0] = hex stream
     std::istringstream ss(unhex(v[0] == "-" ? "" : v[0]));
+    Other<P> other(a, false);
     a.deserialize_manually(ss);
     bool ok = !ss.fail();
     long consumed = ok ? (long)ss.tellg() : (long)ss.gcount();
     bool guards = true;
     for (size_t cm = 0; cm < P::nmoduli; cm++) for (size_t i = 0; i < P::degree; i++) if (g0(cm, i) != (T)0xA5A5A5A5A5A5A5A5ULL || g1(cm, i) != (T)0x5A5A5A5A5A5A5A5AULL) guards = false;
-    os << (ok ? "ok" : "fail") << " " << consumed << " " << (guards ? "guards-intact" : "GUARD-OVERWRITTEN"); show(os, a);
+    os << (ok ? "ok" : "fail") << " " << consumed << " " << (guards ? "guards-intact" : "GUARD-OVERWRITTEN"); show(os, a); os << other.verdict();
   } else if (op == "deser2") {   // two polynomials back to back from one stream
     std::istringstream ss(unhex(v[0]));
+    Other<P> other(a, false);
     a.deserialize_manually(ss); os << (ss.fail() ? "fail" : "ok"); show(os, a);
-    a.deserialize_manually(ss); os << " | " << (ss.fail() ? "fail" : "ok") << " " << (long)ss.tellg(); show(os, a);
+    a.deserialize_manually(ss); os << " | " << (ss.fail() ? "fail" : "ok") << " " << (long)ss.tellg(); show(os, a); os << other.verdict();
   } else if (op == "cereal_bin" || op == "cereal_pbin" || op == "cereal_json") {
     put(a, v, 0); std::stringstream ss;
-    if (op == "cereal_bin") { { cereal::BinaryOutputArchive ar(ss); ar(a); } os << hex(ss.str()); P* b = alloc_aligned<P, 32>(1); { cereal::BinaryInputArchive ia(ss); ia(*b); } os << " |"; show(os, *b); free_aligned(1, b); }
-    else if (op == "cereal_pbin") { { cereal::PortableBinaryOutputArchive ar(ss); ar(a); } os << hex(ss.str()); P* b = alloc_aligned<P, 32>(1); { cereal::PortableBinaryInputArchive ia(ss); ia(*b); } os << " |"; show(os, *b); free_aligned(1, b); }
-    else { { cereal::JSONOutputArchive ar(ss); ar(a); } std::string j = ss.str(), c; for (char ch : j) if (ch != ' ' && ch != '\n' && ch != '\t') c += ch; os << c; P* b = alloc_aligned<P, 32>(1); { cereal::JSONInputArchive ia(ss); ia(*b); } os << " |"; show(os, *b); free_aligned(1, b); }
+    if (op == "cereal_bin") { { cereal::BinaryOutputArchive ar(ss); ar(a); } os << hex(ss.str()); P* b = alloc_aligned<P, 32>(1); { Other<P> other(*b, true); { cereal::BinaryInputArchive ia(ss); ia(*b); } os << " |"; show(os, *b); os << other.verdict(); } free_aligned(1, b); }
+    else if (op == "cereal_pbin") { { cereal::PortableBinaryOutputArchive ar(ss); ar(a); } os << hex(ss.str()); P* b = alloc_aligned<P, 32>(1); { Other<P> other(*b, true); { cereal::PortableBinaryInputArchive ia(ss); ia(*b); } os << " |"; show(os, *b); os << other.verdict(); } free_aligned(1, b); }
+    else { { cereal::JSONOutputArchive ar(ss); ar(a); } std::string j = ss.str(), c; for (char ch : j) if (ch != ' ' && ch != '\n' && ch != '\t') c += ch; os << c; P* b = alloc_aligned<P, 32>(1); { Other<P> other(*b, true); { cereal::JSONInputArchive ia(ss); ia(*b); } os << " |"; show(os, *b); os << other.verdict(); } free_aligned(1, b); }
   } else if (op == "cereal_in") {   // read a binary archive written elsewhere (hex in v[0])
-    std::stringstream ss(unhex(v[0])); { cereal::BinaryInputArchive ia(ss); ia(a); } show(os, a);
+    std::stringstream ss(unhex(v[0])); Other<P> other(a, false); { cereal::BinaryInputArchive ia(ss); ia(a); } show(os, a); os << other.verdict();
   } else os << "badop";
 }
 
